@@ -134,10 +134,10 @@ Print Assumptions C19_init_close_step.
 Example C19_nonvacuous_interleaved :
   let acts := [(1%N, KWriter [0] [] true [(0, 7%N)] []); (2%N, KWriter [0] [0] true [] [(0, 7%N)])] in
   wf_system 1 acts /\
-  map tv_init (s_root (reach 1 acts (repeat 0 12))) = [Some (1%N, [7%N])] /\
-  map tv_init (s_root (reach 1 acts (repeat 0 12 ++ repeat 1 8))) = [None] /\
-  s_closed (reach 1 acts (repeat 0 12 ++ repeat 1 10)) = [0%N] /\
-  s_closed (reach 1 acts (repeat 0 12 ++ repeat 1 12)) = [1%N; 0%N].
+  map tv_init (s_root (reach 1 acts (repeat 0 13))) = [Some (1%N, [7%N])] /\
+  map tv_init (s_root (reach 1 acts (repeat 0 13 ++ repeat 1 9))) = [None] /\
+  s_closed (reach 1 acts (repeat 0 13 ++ repeat 1 11)) = [0%N] /\
+  s_closed (reach 1 acts (repeat 0 13 ++ repeat 1 13)) = [1%N; 0%N].
 Proof.
   split; [split|].
   - intros ik [<-|[<-|[]]]; cbn; repeat split; try (intros x Hx; cbn in Hx; intuition (subst; cbn; auto)).
